@@ -52,6 +52,8 @@ def find_function(relpath, qualname):
         found = None
         for n in body:
             if isinstance(n, (ast.FunctionDef, ast.ClassDef)) and n.name == p:
+                if isinstance(n, ast.FunctionDef) and any(ast.unparse(d).endswith(".setter") for d in n.decorator_list):
+                    continue     # `@x.setter def x` re-binds the property object; the getter is what a read executes
                 found = n  # last definition wins, like Python
         if found is None:
             raise ExtractionError(f"{qualname} not found in {relpath}")
